@@ -11,16 +11,20 @@ pub struct CenCase {
     pub g: GraphCase,
     pub weighted: bool,
     pub spec_limit: usize,
+    /// the implementation sees every weight divided by this power of two (the model works on the integer numerators:
+    /// betweenness is scale-invariant, closeness scales by the same factor)
+    pub wdiv: u32,
 }
 impl CenCase {
     pub fn request(&self) -> String {
-        format!("cen {} {} {}", self.g.tokens(), self.weighted as u8, self.spec_limit)
+        format!("cen {} {} {} {}", self.g.tokens(), self.weighted as u8, self.spec_limit, self.wdiv)
     }
     pub fn parse(t: &mut Toks) -> CenCase {
         let g = GraphCase::parse(t);
         let weighted = t.next() != 0;
         let spec_limit = t.next() as usize;
-        CenCase { g, weighted, spec_limit }
+        let wdiv = t.next() as u32;
+        CenCase { g, weighted, spec_limit, wdiv }
     }
 }
 
@@ -37,7 +41,7 @@ pub fn p_fmap(r: &Result<HashMap<u32, f64>, Error>) -> String {
 }
 
 pub fn observe_cen(c: &CenCase) -> String {
-    let g = match c.g.build() {
+    let g = match c.g.build_scaled(c.wdiv.max(1)) {
         Ok(g) => g,
         Err(e) => return format!("i.build=E{}", err_code(&e.kind)),
     };
@@ -58,7 +62,7 @@ pub fn gen_cen(rng: &mut Rng, profile: &str, size: usize) -> CenCase {
         weights: if weighted { WeightMode::Positive } else if rng.chance(50) { WeightMode::Unweighted } else { WeightMode::Mixed },
         allow_multi: true, allow_loops: true, directed: None, density_pct: if big { 7 } else { 25 },
     };
-    CenCase { g: gen_graph(rng, &o), weighted, spec_limit: 8 }
+    CenCase { g: gen_graph(rng, &o), weighted, spec_limit: 8, wdiv: *rng.pick(&[1u32, 1, 2, 2, 4]) }
 }
 
 pub fn candidates_cen(c: &CenCase) -> Vec<String> {
